@@ -7,6 +7,8 @@ Spec: `Spec.minimalBE`.
 import CoapLite.Model.Str
 import CoapLite.Lemmas.Uint
 import CoapLite.Lemmas.CodecFwd
+import CoapLite.Lemmas.Shape.Packet
+import CoapLite.Lemmas.Shape.Global
 
 namespace CoapLite.C06
 open CoapLite Spec
@@ -127,5 +129,20 @@ example : optionFromUint 255 2 = .ok [255] := by decide
 example : optionToUint [0, 0, 1, 0] 4 = .ok 256 := by decide
 example : optionToUint [0, 0, 1, 0, 0] 4 = .err .other := by decide
 example : Width 8 ∧ (18446744073709551615 : Nat) < 256 ^ 8 := ⟨by simp [Width], by decide⟩
+
+/-! ### tie to the source: the state the model carries is the state the code carries
+
+`Shapes.*` (Generated/Shapes.lean) is re-read from /repo/src on every run: the field lists of the
+structs this property's model mirrors, and every construct that introduces state outside the values
+the API passes around (thread-locals, `static mut`, cells, locks, atomics). The model accounts for
+exactly these fields (Lemmas/Shape/*.lean say which model field mirrors which); a field or a
+global added to the code – a memo, a marker, a digest in place of the data – breaks this theorem
+even if no explored input behaves differently. -/
+theorem state_shape_matches_source :
+    Shapes.globalState = [] ∧
+    Shapes.packet = [("header", "Header"), ("token", "Vec<u8>"), ("options", "BTreeMap<u16,LinkedList<Vec<u8>>>"), ("payload", "Vec<u8>")] ∧
+    Shapes.header = [("ver_type_tkl", "u8"), ("code", "MessageClass"), ("message_id", "u16")] ∧
+    Shapes.headerRaw = [("ver_type_tkl", "u8"), ("code", "u8"), ("message_id", "u16")] :=
+  ⟨ShapeTie.no_global_state, ShapeTie.packet, ShapeTie.header, ShapeTie.headerRaw⟩
 
 end CoapLite.C06
